@@ -33,6 +33,12 @@ structure Obs15 where
   perValue : List (String × Res Json × Res PyVal)  -- serialize_value / deserialize_value
   subSer : Res (List (String × Json))              -- the same under subset=
   subDeser : Res (List (String × PyVal))
+  -- the same text deserialized a second time, after the containers of the first result (and of
+  -- the object rebuilt from it) were mutated in place
+  againDeser : Res (List (String × PyVal))
+  againRebuilt : Res (List (String × PyVal))
+  againShared : Bool                               -- a list/dict object of the first result reappears
+  againPerValue : List (String × Res PyVal)        -- second deserialize_value of the same text
 
 /-- the statement's preconditions: finite numbers, naive datetimes (not dates) in Date parameters -/
 def applicable15 (st : List (Param × PyVal)) : Bool :=
@@ -79,7 +85,14 @@ def model15 (st : List (Param × PyVal)) (subset : Option (List String)) (classL
     subSer := liftE subSer
     subDeser := match subSer with
       | .ok f => liftE (deserializeFields ps subset f)
-      | .error _ => .error "noser" }
+      | .error _ => .error "noser"
+    -- deserialization is a function of the text: a second call gives fresh, equal values
+    againDeser := deser
+    againRebuilt := match deser with
+      | .ok l => modelRebuild ps l
+      | .error _ => .error "nodeser"
+    againShared := false
+    againPerValue := (perValueModel st).map fun (n, _, d) => (n, d) }
 
 /-- The C15 conclusions on an observation.  The per-parameter entry points are checked
 first so that the message names the parameter at fault. -/
@@ -112,8 +125,24 @@ def spec15 (subset : Option (List String)) (o : Obs15) : Option String :=
     match o.subDeser with
     | .error e => some s!"subset: deserialize_parameters raised {e}"
     | .ok l =>
-      if beqFields l (o.state.filter fun x => inSubset subset x.1) then none
-      else some "subset: deserialized arguments are not the subset of the state"
+      if !beqFields l (o.state.filter fun x => inSubset subset x.1) then
+        some "subset: deserialized arguments are not the subset of the state" else
+      -- a second deserialization of the same text, after the first result was mutated in place
+      if o.againShared then some "repeat: the second deserialization shares list/dict objects with the first" else
+      match o.againDeser with
+      | .error e => some s!"repeat: second deserialize_parameters raised {e}"
+      | .ok l2 =>
+        if !beqFields l2 o.state then some "repeat: second deserialize_parameters of the same text differs from the state" else
+        match o.againRebuilt with
+        | .error e => some s!"repeat: rebuilding from the second result failed ({e})"
+        | .ok r2 =>
+          if !beqFields r2 o.state then some "repeat: object rebuilt from the second result differs from the state" else
+          match o.againPerValue.find? (fun (n, d) =>
+              match d, o.state.find? (fun x => x.1 == n) with
+              | .ok v, some (_, w) => !PyVal.beq v w
+              | _, _ => true) with
+          | some (n, _) => some s!"repeat: parameter {n}: second deserialize_value of the same text differs"
+          | none => none
 
 /-! ## C16 -/
 
